@@ -99,10 +99,22 @@ func ruleOwn(p *Prog, r *RuleResult) {
 			r.fail(pname+"#task-loop", p.IPos(g), "the go statement is not inside a loop: cannot identify per-task state")
 			continue
 		}
-		// stores into the task literal
+		// stores into the task literal: in processBlock itself, or in a builder helper called from the task loop
+		// (then the builder's parameters are replaced by the arguments of that call)
 		st := s.taskT.Underlying().(*types.Struct)
 		inits := map[*types.Var]ssa.Value{}
-		eachInstr(pb, func(i ssa.Instruction) {
+		builder, bcall := taskBuilder(p, s)
+		resolve := func(v ssa.Value) ssa.Value {
+			if pr, ok := v.(*ssa.Parameter); ok && builder != pb && bcall != nil {
+				for i, q := range builder.Params {
+					if q == pr && i < len(bcall.Common().Args) {
+						return bcall.Common().Args[i]
+					}
+				}
+			}
+			return v
+		}
+		eachInstr(builder, func(i ssa.Instruction) {
 			sto, ok := i.(*ssa.Store)
 			if !ok {
 				return
@@ -113,6 +125,13 @@ func ruleOwn(p *Prog, r *RuleResult) {
 			}
 			inits[fieldVarOfAddr(fa)] = sto.Val
 		})
+		inLoop := func(in ssa.Instruction) bool {
+			if in.Parent() == pb {
+				return loop[in.Block()]
+			}
+			// allocated inside the builder: fresh per call, and the call sits in the loop
+			return bcall != nil && in.Parent() == builder && loop[bcall.Block()]
+		}
 		hashers := map[*types.Var]bool{}
 		for _, hf := range hasherFields(p, s) {
 			hashers[hf] = true
@@ -129,6 +148,7 @@ func ruleOwn(p *Prog, r *RuleResult) {
 				r.ok(key+": not initialised (nil)", p.IPos(g))
 				continue
 			}
+			v = resolve(v)
 			pos := p.Pos(v.Pos())
 			if in, ok := v.(ssa.Instruction); ok {
 				pos = p.IPos(in)
@@ -167,15 +187,21 @@ func ruleOwn(p *Prog, r *RuleResult) {
 				r.ok(key+": shared-immutable hasher (R-HASH-PURE)", pos)
 			default:
 				switch x := v.(type) {
+				case *ssa.Call:
+					if h := x.Call.StaticCallee(); returnsFresh(h) && inLoop(x) {
+						r.ok(key+": fresh per task (returned by "+h.Name()+", which allocates it, inside the task loop)", pos)
+					} else {
+						r.fail(key, pos, fmt.Sprintf("unclassified shared state: task field %s is produced by a call that is not known to return a fresh object per task", fv.Name()))
+					}
 				case *ssa.IndexAddr:
-					if perTaskIndex(x.Index, loop) {
+					if perTaskIndexR(x.Index, loop, resolve) {
 						r.ok(key+": per-task element (index = loop variable)", pos)
 					} else {
 						r.fail(key, pos, fmt.Sprintf("task field %s points to an element whose index is not the task loop variable: several tasks share (and concurrently write) the same slot", fv.Name()))
 					}
 				case *ssa.MakeMap, *ssa.MakeSlice, *ssa.Alloc:
 					in := v.(ssa.Instruction)
-					if loop[in.Block()] {
+					if inLoop(in) {
 						r.ok(key+": fresh per task (allocated inside the task loop)", pos)
 					} else if _, isSlice := fv.Type().Underlying().(*types.Slice); isSlice {
 						// copied slice shared read-only: no element store through it in task code
@@ -571,4 +597,51 @@ func ruleBwtWorker(p *Prog, r *RuleResult) {
 		})
 	}
 	r.floor(1, nworkers, "worker goroutines in package transform")
+}
+
+// taskBuilder returns the function that fills the task literal (processBlock itself or a helper it calls) and, for a
+// helper, the call instruction in processBlock.
+func taskBuilder(p *Prog, s *taskSide) (*ssa.Function, ssa.CallInstruction) {
+	has := func(f *ssa.Function) bool {
+		found := false
+		eachInstr(f, func(i ssa.Instruction) {
+			if sto, ok := i.(*ssa.Store); ok {
+				if fa, ok := sto.Addr.(*ssa.FieldAddr); ok && namedOf(fa.X.Type()) == s.taskT && fieldVarOfAddr(fa) == s.curID {
+					found = true
+				}
+			}
+		})
+		return found
+	}
+	if has(s.parent) {
+		return s.parent, nil
+	}
+	for _, h := range p.helperClosure(s.parent) {
+		if !has(h) {
+			continue
+		}
+		var call ssa.CallInstruction
+		eachInstr(s.parent, func(i ssa.Instruction) {
+			if ci, ok := i.(ssa.CallInstruction); ok && ci.Common().StaticCallee() == h {
+				call = ci
+			}
+		})
+		if call != nil {
+			return h, call
+		}
+	}
+	return s.parent, nil
+}
+
+// perTaskIndexR: like perTaskIndex, after replacing builder parameters by call-site arguments.
+func perTaskIndexR(idx ssa.Value, loop map[*ssa.BasicBlock]bool, resolve func(ssa.Value) ssa.Value) bool {
+	idx = resolve(idx)
+	if perTaskIndex(idx, loop) {
+		return true
+	}
+	if add, ok := idx.(*ssa.BinOp); ok && add.Op == token.ADD {
+		x, y := resolve(add.X), resolve(add.Y)
+		return (isInduction(x) && !isInduction(y)) || (isInduction(y) && !isInduction(x))
+	}
+	return false
 }
